@@ -19,7 +19,7 @@ from . import minimise as mini
 VERIF = os.path.dirname(os.path.dirname(os.path.abspath(__file__)))
 REPO = os.environ.get("VERIF_REPO", "/repo")
 OUT = os.path.join(VERIF, "out")
-REPLAYS = os.path.join(OUT, "replays")
+REPLAYS = os.path.join(OUT, "replays" if not os.environ.get("VERIF_NO_EVIDENCE") else "replays-scratch")
 EVIDENCE = os.path.join(VERIF, "evidence")
 KNOWN = os.path.join(VERIF, "known_findings.json")
 
@@ -300,7 +300,7 @@ def run_check(pid, tier, seed, jobs=None, budget=None, runs=None, quiet=False):
         "assumptions": mod.ASSUMPTIONS,
     }
     os.makedirs(EVIDENCE, exist_ok=True)
-    if total["n"] > 0:
+    if total["n"] > 0 and not os.environ.get("VERIF_NO_EVIDENCE"):
         with open(os.path.join(EVIDENCE, pid + ".json"), "w") as f:
             json.dump(ev, f, indent=1, sort_keys=True)
 
